@@ -560,6 +560,9 @@ def dict_ops(c, r, lines, expect, ctxs):
     ctxs.append(c.ctx)
     for hn, obj in c.insts():
         ci = U.cls_index(obj)
+        if c.stale_parts(obj):
+            c.tags["dict.skipped-stale-view"] += 1        # O-30: what such a handle reads is not its buffer data
+            continue
         try:
             val = c.strip(c.values(obj))
         except Exception:
